@@ -9,8 +9,8 @@ META = {
     "level": "model_checking",
     "engine": "afc",
     "technique": "TLA+ spec AfcShm (writer and readers of the shared-memory channel lists, one action per yield point) model-checked with TLC for the call-level removal predicate; edge-covering schedules of its state graph replayed on the real shm WriteState/ReadState under the yield-point scheduler; the recorded real call/return history validated against the property machine AfcAbs (trace validation)",
-    "text": "TLC checks every interleaving of a writer running scripts of add/remove/remove_if/remove_all (generation bump, list change, offset swap, second list) with readers doing setup_*_ctx, seal and open with cached keys: a call invoked after a removal of its channel returned never finds the channel, a channel no removal was invoked for is never lost, removed ids never reappear. The spec mutant that bumps only the first list's generation must be rejected. Every transition of the schedule graphs is executed on real WriteState/ReadState over POSIX shared memory (one process, writer + reader threads): after each step the lists, generations and offsets from a verification snapshot and the results of completed calls are compared with the spec. VIOLATION only if, in the real history ordered by the scheduler's step counter, a seal/open/setup invoked after a removal returned found the channel, NotFound was returned for a channel no removal was invoked for, a removed id is listed again, or the recorded history is rejected by AfcAbs.",
-    "note": "Bounds: capacity 2; design run 7 writer scripts of 3 calls x 2 readers x 2 calls (thorough: 3 calls); schedule graphs: 1 reader x 4 calls over 9 scripts, 2 readers x 2 calls over 2 scripts; quick replays a seeded sample of the cover paths. Sequentially consistent interleavings only (DESIGN §9). The in-memory state (memory::State) is covered by AfcMem (5 scripts x 2 readers x 3 calls; schedule graph with 2 calls) replayed on the real memory::State with the tracking allocator.",
+    "text": "TLC checks every interleaving of a writer running scripts of add/remove/remove_if/remove_all (generation bump, list change, offset swap, second list) with readers doing setup_*_ctx, seal and open with cached keys: a call invoked after a removal of its channel returned never finds the channel, a channel no removal was invoked for is never lost, removed ids never reappear. Spec mutants must be rejected: bumping only the first list's generation; bumping before the lookup (removal of an absent id leaves the generations one apart); an open lookup that trusts the cached slot without comparing the id. Every transition of the schedule graphs is executed on real WriteState/ReadState over POSIX shared memory (one process, writer + reader threads): after each step the lists, generations and offsets from a verification snapshot and the results of completed calls are compared with the spec. VIOLATION only if, in the real history ordered by the scheduler's step counter, a seal/open/setup invoked after a removal returned found the channel, NotFound was returned for a channel no removal was invoked for, a removed id is listed again, or the recorded history is rejected by AfcAbs.",
+    "note": "Bounds: capacity 2; design run 7 writer scripts of 3 calls x 2 readers x 2 calls (thorough: 3 calls); schedule graphs: 1 reader x 4 calls over 9 scripts, 2 readers x 2 calls over 2 scripts, 1 reader x 3 calls over 9 capacity-4 scripts (swap_remove relocations of seal and open channels, removals of absent ids before real ones); quick replays a seeded sample of the cover paths. Sequentially consistent interleavings only (DESIGN §9). The in-memory state (memory::State) is covered by AfcMem (5 scripts x 2 readers x 3 calls; schedule graph with 2 calls) replayed on the real memory::State with the tracking allocator.",
 }
 
 
@@ -21,7 +21,8 @@ def run(ctx):
         ctx.absorb(ctx.run_engine(vh, "mem" if case.get("engine") == "mem" else "shm", [case], opts={"only": "C41"}))
         return
     cfgs = ["MC_AfcShm_c41_thorough.cfg"] if ctx.thorough else ["MC_AfcShm_c41.cfg"]
-    (beh, trace), sel = afc_util.shm_check(ctx, vh, "C41", cfgs, ("MC_AfcShm_mut_bump.cfg", "RemovalEffective"))
+    (beh, trace), sel = afc_util.shm_check(ctx, vh, "C41", cfgs, [("MC_AfcShm_mut_bump.cfg", "RemovalEffective"), ("MC_AfcShm_mut_rmbump.cfg", "RemovalEffective"),
+                                           ("MC_AfcShm_mut_openhint.cfg", "RemovalEffective")])
     afc_util.mem_check(ctx, vh, "C41")
     if ctx.nviol:
         # self-tests use the recorded results of this run; with violations present they prove nothing
